@@ -303,7 +303,7 @@ def strategy(tier):
                             parts.append({'s': [a, draw(st.integers(a + 1, e)), None]})
                         else:
                             used_list = True
-                            k2 = draw(st.integers(1, 2))
+                            k2 = draw(st.integers(1, min(2, e)))
                             parts.append({'a': draw(st.lists(st.integers(0, e - 1), min_size=k2, max_size=k2, unique=True)), 'list': True})
                     idx = {'t': parts}
                 r = np.zeros(shape)[dec(idx)]
